@@ -270,8 +270,9 @@ def ref_decode(d: Definition, payload: int, nbytes: int):
             else:
                 try:
                     if typ == 1:
-                        s = body.decode("ascii")
-                        ok = all(0x20 <= c <= 0x7E for c in body)
+                        # single-byte encoding: ASCII, and - as canboat passes the bytes through - UTF-8 text
+                        s = body.decode("utf-8")
+                        ok = all(0x20 <= ord(c) and ord(c) != 0x7F and not (0x80 <= ord(c) <= 0x9F) for c in s)
                     else:
                         s = body.decode("utf-16-le")
                         ok = len(body) % 2 == 0 and all(0x20 <= ord(c) and not (0xD800 <= ord(c) <= 0xDFFF) and c not in ("\ufeff", "\ufffe") for c in s)
